@@ -63,7 +63,7 @@ ASSUMPTIONS = [
 ]
 REQUIRED = ["files:read", "cues:compared", "clause:count-order", "clause:blocks-skipped", "clause:time", "clause:text",
             "clause:attrs", "clause:ts", "clause:geom-contain", "clause:geom-align", "clause:line-edge",
-            "clause:sharing-equal", "clause:isolation", "clause:line-number-alignment", "class:colliding-settings", "clause:roundtrip", "class:crlf", "class:lf", "class:hours", "class:no-hours", "class:id",
+            "clause:sharing-equal", "clause:isolation", "clause:line-number-alignment", "settings:far-line-numbers", "class:colliding-settings", "clause:roundtrip", "class:crlf", "class:lf", "class:hours", "class:no-hours", "class:id",
             "class:no-id", "class:note", "class:style", "class:region", "feat:b", "feat:i", "feat:u", "feat:c.fg", "feat:c.bg",
             "feat:lang", "feat:v", "feat:ruby", "feat:ruby-2pairs", "feat:depth3", "feat:ts", "feat:ts>=2", "feat:cref,numeric", "feat:cref,lrm-rlm", "feat:cref,amp-lt-gt-nbsp", "feat:multi-line",
             "feat:vertical", "feat:position", "feat:size", "set:line:num0", "set:line:neg", "set:line:pct", "set:align"]
@@ -1060,6 +1060,10 @@ def _run(ctx, rep, params):
     rng = ctx.rng("settings", params["part"])
     combos = list(G.all_setting_combinations())
     combos = combos[params["part"]::params["parts"]][::params["stride"]]
+    if params["part"] == 0:
+      far = list(G.far_line_combinations())
+      combos += far
+      ctx.count("settings:far-line-numbers", len(far))
     ctx.count("settings:combinations", len(combos))
     for lo in range(0, len(combos), 12):
       tok = G._Tok("k")  # pylint: disable=protected-access
